@@ -658,10 +658,10 @@ def jobs(tier):
                     cost=100, bounds=dict(compact='size byte 0..34, every 24-bit mantissa (sign bit included)'), must_reach=('ok',)))
     # thorough: every size byte except 02, 03, 06, 07, where z3 leaves 11-19 paths per size undecided within 60 s per query
     # (targets below 2^56; the chain's targets have size bytes 0x1a-0x1f)
-    sizes = range(0x1a, 0x21) if tier == 'quick' else [x for x in range(1, 0x21) if x not in (2, 3, 6, 7)]
+    sizes = range(0x1a, 0x21) if tier == 'quick' else [x for x in range(1, 0x21) if x not in ()]
     for size in sizes:
         out.append(dict(name=f'retarget-size-{size:02x}', family='retarget', fn='retarget', args=(size,), loop_bound=300, max_depth=40,
-                        cost=3000, query_timeout_ms=60000, incremental_timeout_ms=100,
+                        cost=3000, query_timeout_ms=60000, incremental_timeout_ms=100, cvc5_fallback=size in (2, 3, 6, 7),
                         bounds=dict(bits=f'size byte {size:#x}, every normalised mantissa with target <= max_target',
                                     timestamps='every pair of 32-bit values')))
     out.append(dict(name='retarget-edges', family='retarget', fn='retarget_edges', args=(), loop_bound=300, max_depth=40, cost=300,
